@@ -23,38 +23,42 @@ SCALAR_RESULTS = ["chi_sqr", "hash", "success", "xmin", "xmax",
 # --------------------------------------------------------------------------
 # optimiser-invocation counter (wrapped from the harness; no source hook)
 # --------------------------------------------------------------------------
+def called_from_fitter():
+    """is the caller of lmfit.minimize the fitting module of the library
+    (and not e.g. a contact-point estimator, which optimises too)?  Decided
+    at the library boundary, without naming anything private."""
+    import sys
+    f = sys._getframe(1)
+    while f is not None:
+        name = f.f_globals.get("__name__", "")
+        if name not in ("curve_exec", "fitpasses"):
+            return name == "nanite.fit"
+        f = f.f_back
+    return False
+
+
 class OptCounter:
+    """counts the optimiser runs that the library's fitting module starts
+    (wrapping lmfit.minimize only)"""
     installed = None
 
     def __init__(self):
         self.n = 0
-        self.passes = []
-        self._in_fit = 0
 
     @classmethod
     def install(cls):
         if cls.installed is not None:
             return cls.installed
         import lmfit
-        from nanite import fit as nfit
         self = cls()
         orig_min = lmfit.minimize
-        orig__fit = nfit.IndentationFitter._fit
 
         def minimize(*a, **kw):
-            if self._in_fit:
+            if called_from_fitter():
                 self.n += 1
             return orig_min(*a, **kw)
 
-        def _fit(fitter):
-            self._in_fit += 1
-            try:
-                return orig__fit(fitter)
-            finally:
-                self._in_fit -= 1
-
         lmfit.minimize = minimize
-        nfit.IndentationFitter._fit = _fit
         cls.installed = self
         return self
 
